@@ -642,9 +642,9 @@ func (c *Ctx) healthSpec() *Spec {
 				return "mirror(" + p.Desc(args[0], fr) + "," + p.Desc(args[1], fr) + ")"
 			case strings.HasSuffix(n, "LoadBalancer).MarkBackendUnhealthy"):
 				return "mark-unhealthy(" + p.Desc(args[1], fr) + ")"
-			case strings.HasSuffix(n, "LoadBalancer).performHealthCheck"):
+			case c.probeSender() != nil && StaticFn(ci) == c.probeSender() && c.probeSender() != c.probeRoot():
 				return "probe"
-			case n == "net/http.NewRequestWithContext" && p.Fn("internal/loadbalancer", "LoadBalancer", "performHealthCheck") == nil && strings.Contains(p.Desc(args[0], fr), "LoadBalancer.ctx"):
+			case n == "net/http.NewRequestWithContext" && (c.probeSender() == nil || c.probeSender() == c.probeRoot()) && strings.Contains(p.Desc(args[0], fr), "LoadBalancer.ctx"):
 				return "probe" // the probe is built and sent inline
 			case strings.HasSuffix(n, "LoadBalancer).handlePassiveHealthCheck"):
 				return "passive-check"
@@ -653,7 +653,14 @@ func (c *Ctx) healthSpec() *Spec {
 		},
 		Cond: func(in *ssa.If, fr *Frame) string {
 			d := p.Desc(in.Cond, fr)
-			for _, s := range []string{"Backend.IsHealthy", "Backend.UnhealthyUntil", "unhealthyBackends", "passiveThreshold", "passiveEnabled", "StatusCode", "statusCode", "performHealthCheck", "metricsCollector", "NewRequestWithContext(", "http.Client).Do("} {
+			mention := []string{"Backend.IsHealthy", "Backend.UnhealthyUntil", "unhealthyBackends", "passiveThreshold", "passiveEnabled", "StatusCode", "statusCode", "performHealthCheck", "metricsCollector", "NewRequestWithContext(", "http.Client).Do("}
+			if ps := c.probeSender(); ps != nil {
+				mention = append(mention, ps.Name()+"(")
+			}
+			if r := p.RelOf(in.Cond, true, fr); r.OK && r.Pred == "" && r.Y == "" && ((r.Lo == 500 && r.Hi == posInf) || (r.Lo == negInf && r.Hi == 499)) {
+				return "if " + d
+			}
+			for _, s := range mention {
 				if strings.Contains(d, s) {
 					return "if " + d
 				}
@@ -663,6 +670,9 @@ func (c *Ctx) healthSpec() *Spec {
 		Expand: func(callee *ssa.Function, site ssa.CallInstruction) bool {
 			pk := fnPkg(callee)
 			if pk == nil || !strings.HasSuffix(pk.Pkg.Path(), "/internal/loadbalancer") {
+				return false
+			}
+			if callee == c.probeSender() && callee != c.probeRoot() {
 				return false
 			}
 			switch callee.Name() {
@@ -975,8 +985,11 @@ func (c *Ctx) passiveThreshold() {
 					continue
 				}
 				r := c.condRel(it)
-				if r.OK && r.Pred == "" && r.Y == "" && (strings.Contains(r.X, "statusCode") || strings.Contains(r.X, "StatusCode")) {
-					if !okS || r.Lo == 500 || r.Hi == 499 {
+				if r.OK && r.Pred == "" && r.Y == "" && !r.Neq {
+					// a comparison with the server-error boundary, whatever the status variable is called
+					boundary := (r.Lo == 500 && r.Hi == posInf) || (r.Lo == negInf && r.Hi == 499)
+					named := strings.Contains(r.X, "statusCode") || strings.Contains(r.X, "StatusCode")
+					if boundary || (named && !okS) {
 						st, okS = r, true
 					}
 				}
@@ -1060,8 +1073,7 @@ func prevLabel(t *Trace, i int, open, close string) string {
 
 // probeEdges: C04 clause 3.
 func (c *Ctx) probeEdges() {
-	p := c.P
-	fn := p.Fn("internal/loadbalancer", "LoadBalancer", "checkBackendHealth")
+	fn := c.probeRoot()
 	c.traceRule("probe-edges", "loadbalancer.(*LoadBalancer).checkBackendHealth", fn, c.healthSpec(),
 		"a probe ejects exactly on the error edge and the status≠200 edge; the 200 edge marks healthy and never ejects",
 		func(t *Trace) string {
@@ -1088,7 +1100,11 @@ func (c *Ctx) probeEdges() {
 				if !e.OK || e.Y != "" && e.Y != "k:nil" {
 					continue
 				}
-				if strings.Contains(e.X, "performHealthCheck(") || strings.Contains(e.X, "NewRequestWithContext(") || strings.Contains(e.X, "http.Client).Do(") {
+				senderName := "performHealthCheck"
+				if ps := c.probeSender(); ps != nil {
+					senderName = ps.Name()
+				}
+				if strings.Contains(e.X, senderName+"(") || strings.Contains(e.X, "NewRequestWithContext(") || strings.Contains(e.X, "http.Client).Do(") {
 					if strings.Contains(e.X, "#1") && e.Pred == "" { // the error result, possibly merged by a φ
 						okE = true
 						if e.Neq || e.Lo != 0 {
